@@ -17,7 +17,24 @@ Oracle (written from the property statement, not from rich/live*.py):
   * fault injection: a renderable / progress column that raises on its k-th call for every k, and an
     exception raised at every position of the ``with`` body: afterwards ``sys.stdout`` / ``sys.stderr``
     are the original objects, ``console._render_hooks == []``, the last DECTCEM code is "show" and the
-    exception propagates.
+    exception propagates;
+  * uncropped prints: every history family also has prints that do not go through the cropping step of
+    ``Console.print`` (``print(soft_wrap=True)``, ``print(crop=False)``, ``Console.out``, a console created with
+    ``soft_wrap=True``); the reference lines come from the same call on the second console and long lines
+    auto-wrap on the terminal model.  The screen / cursor checks after such a call (and after a log or a
+    stdout write on a ``soft_wrap`` console, where the log is the call whose wrap options differ) are the
+    same checks under their own names, ``c10.screen_after_uncropped_print`` /
+    ``c10.cursor_position_uncropped_print``.  On a ``soft_wrap`` console the reference for a *frame* is the
+    renderable printed there with every logical line cut at the console width (a frame row cannot auto-wrap:
+    the region is counted in rows);
+  * faults inside a history ("the renderable itself raises at any point", and the history goes on): a printed
+    renderable that emits r rows and then raises (``badprint``), or the live renderable / a progress column's
+    renderable raising while a print / out / refresh re-renders the frame (``badframe``); the body catches the
+    exception and carries on.  The exception must come out of the call (``c10.fault_propagates``); right after
+    it the screen must still be the printed lines followed by the last refreshed frame
+    (``c10.screen_after_fault`` / ``c10.cursor_position_fault``), the cursor must not have moved above the live
+    region while the failed call's output is replayed, and every later operation and the final stop are
+    checked exactly as before (no printed line overwritten, no remnant).
 
 Model decisions that are *tolerances* (stated here because they make the oracle weaker than a literal
 reading): (1) trailing blank rows of the screen are not compared - a blank row and an untouched row are
@@ -26,7 +43,11 @@ the same thing on a terminal - which tolerates the blank padding rows ``LiveRend
 ``max height shown so far - current height`` blank rows are accepted between the final frame and later
 output (counted in ``samples``/``rule`` as ``padding_rows``).  (2) For ``Live``/``Status`` a print or log
 while the display is running counts as a refresh (it re-renders the current renderable); for
-``Progress`` it re-renders the frame of the last ``refresh()``.
+``Progress`` it re-renders the frame of the last ``refresh()``.  (3) A print that raised half-way: the
+property does not say whether the rows it produced before the exception count as printed, nor whether the
+frame was re-rendered; the oracle accepts any prefix of those rows (including none), and for ``Live`` /
+``Status`` either the frame shown before or the current renderable's frame - whichever the screen shows is
+taken over into the model; anything else (frame missing, rows erased) is a violation.
 
 Outside the precondition (never generated): ``vertical_overflow="visible"`` together with frames taller
 than the console, and ``Progress`` frames taller than the console.
@@ -78,6 +99,7 @@ def _console(cfg: dict, file, live: bool) -> Console:
         log_time=bool(cfg.get("log_time")),
         get_datetime=lambda: _FIXED_DT,
         get_time=lambda: 0.0,
+        soft_wrap=bool(cfg.get("soft_wrap")),
         _environ={},
     )
 
@@ -137,6 +159,23 @@ class _Ref:
         self.console.log(obj)
         return _lines_of(self._delta(), self.cfg["width"])
 
+    def frame(self, obj) -> List[str]:
+        """Rows of a live frame.  On a ``soft_wrap`` console a print neither wraps nor crops, the terminal
+        would auto-wrap; a live frame row cannot do that (the region is counted in rows), so the reference
+        for a frame there is: each logical line cut at the console width."""
+        if not self.cfg.get("soft_wrap"):
+            return self.print(obj)
+        self.console.print(obj)
+        t = Term().feed(self._delta())
+        rows = ["".join(t.rows.get(r, [])[: self.cfg["width"]]).rstrip() for r in range(0, t.max_row + 1)]
+        if rows and rows[-1] == "" and t.col == 0:
+            rows = rows[:-1]
+        return rows
+
+    def out(self, obj) -> List[str]:
+        self.console.out(obj)
+        return _lines_of(self._delta(), self.cfg["width"])
+
 
 def _strip_tail(rows: List[str]) -> List[str]:
     rows = list(rows)
@@ -156,7 +195,40 @@ class _SnapProgress(Progress):
         return r
 
 
-def _progress_columns(name: str):
+class PrintFault(Exception):
+    """injected fault of a printed renderable (the ordinary-Exception flavour; BoomError is the other one)"""
+
+
+class _Partial:
+    """Printed renderable that emits ``rows`` rows and then raises ``exc`` (``exc=None``: the twin that does
+    not raise, printed on the reference console to learn what those rows look like)."""
+
+    def __init__(self, pid: int, rows: int, exc) -> None:
+        self.pid, self.rows, self.exc = pid, rows, exc
+
+    def __rich_console__(self, console, options):
+        for i in range(self.rows):
+            yield Text("B%d.%d" % (self.pid, i))
+        if self.exc is not None:
+            raise self.exc("printed renderable B%d after %d rows" % (self.pid, self.rows))
+
+
+class _Armable:
+    """Wraps a live renderable; while ``arm[0]`` is set every render of it raises BoomError."""
+
+    def __init__(self, inner, arm: list) -> None:
+        self.inner, self.arm = inner, arm
+
+    def __rich_console__(self, console, options):
+        if self.arm[0]:
+            self.arm[1] += 1
+            raise BoomError("armed live renderable")
+        yield self.inner
+
+
+def _progress_columns(name: str, arm: Optional[list] = None):
+    if name == "armed":  # the frame contains a renderable that can be made to raise while the table is rendered
+        return [TextColumn("{task.description} {task.completed}/{task.total}"), RenderableColumn(_Armable(Text("ok"), arm))]
     if name == "text":
         return [TextColumn("{task.description} {task.completed}/{task.total}")]
     if name == "spinner":
@@ -216,9 +288,16 @@ def _run_history(cfg: dict, ops: List[list], orig_out, orig_err) -> dict:
     live = None
     progress = None
     status = None
+    arm = [False, 0]  # [armed?, number of times the armed live renderable raised]
+    armable = bool(cfg.get("armable")) or cfg.get("columns") == "armed"
+
+    def build_live(spec):
+        r = _build(spec)
+        return _Armable(r, arm) if armable else r
+
     if kind == "Live":
         live = Live(
-            _build(cfg["initial"]),
+            build_live(cfg["initial"]),
             console=console,
             auto_refresh=False,
             transient=transient,
@@ -228,7 +307,7 @@ def _run_history(cfg: dict, ops: List[list], orig_out, orig_err) -> dict:
         )
     elif kind == "Progress":
         progress = _SnapProgress(
-            *_progress_columns(cfg.get("columns", "text")),
+            *_progress_columns(cfg.get("columns", "text"), arm),
             console=console,
             auto_refresh=False,
             transient=transient,
@@ -254,14 +333,17 @@ def _run_history(cfg: dict, ops: List[list], orig_out, orig_err) -> dict:
     task_ids: List[int] = []
     heights = set()
     prints_live = 0
+    uncropped_live = 0
+    faults_live = 0
+    ctx_counts: Dict[str, int] = {}
     pos = 0
 
     def full_frame() -> List[str]:
         if kind == "Live":
-            return ref.print(_build(cur_spec))
+            return ref.frame(_build(cur_spec))
         if kind == "Status":
-            return ref.print(status._live.renderable)
-        return ref.print(progress.vf_snapshot)
+            return ref.frame(status._live.renderable)
+        return ref.frame(progress.vf_snapshot)
 
     def frame(final: bool = False) -> List[str]:
         rows = full_frame()
@@ -298,82 +380,139 @@ def _run_history(cfg: dict, ops: List[list], orig_out, orig_err) -> dict:
         floor_before = len(committed)
         was_started = started
         stopping = False
-        # ---------------- execute on rich and on the model
-        if name == "print":
-            console.print(op[1])
-            committed += ref.print(op[1])
-            if started:
-                prints_live += 1
-                if kind != "Progress":
+        eff = op
+        if name == "badframe":  # ["badframe", inner op]: the live renderable raises while the inner op renders it
+            eff = op[1]
+            name = eff[0]
+            arm[0] = True
+        raised_before = arm[1]
+        fault: Optional[BaseException] = None
+        expect_raise = False
+        partial: List[str] = []
+        skip = False
+        # ---------------- execute on rich and on the model (the model is only updated when the call returned)
+        try:
+            if name == "print":
+                opts = eff[2] if len(eff) > 2 else {}
+                console.print(eff[1], **opts)
+                committed += ref.print(eff[1], **opts)
+                if started:
+                    prints_live += 1
+                    if opts or cfg.get("soft_wrap"):
+                        uncropped_live += 1
+                    if kind != "Progress":
+                        shown = frame()
+            elif name == "out":
+                console.out(eff[1])
+                committed += ref.out(eff[1])
+                if started:
+                    prints_live += 1
+                    uncropped_live += 1
+                    if kind != "Progress":
+                        shown = frame()
+            elif name == "badprint":  # ["badprint", id, rows, print options, 1: BaseException flavour]
+                expect_raise = True
+                partial = ref.print(_Partial(eff[1], eff[2], None), **eff[3])
+                console.print(_Partial(eff[1], eff[2], BoomError if eff[4] else PrintFault), **eff[3])
+            elif name == "log":
+                console.log(eff[1])
+                committed += ref.log(eff[1])
+                if started:
+                    prints_live += 1
+                    if cfg.get("soft_wrap"):
+                        uncropped_live += 1
+                    if kind != "Progress":
+                        shown = frame()
+            elif name == "stdout":
+                if started and cfg.get("redirect", True) and sys.stdout is not orig_out:
+                    sys.stdout.write(eff[1] + "\n")
+                    committed += ref.print(Text(eff[1]), markup=False, emoji=False, highlight=False)
+                    prints_live += 1
+                    if cfg.get("soft_wrap"):
+                        uncropped_live += 1
+                    if kind != "Progress":
+                        shown = frame()
+                else:
+                    skip = True
+            elif name == "update":  # Live
+                cur_spec = eff[1]
+                live.update(build_live(eff[1]), refresh=bool(eff[2]))
+                if eff[2] and started:
                     shown = frame()
-        elif name == "log":
-            console.log(op[1])
-            committed += ref.log(op[1])
-            if started:
-                prints_live += 1
-                if kind != "Progress":
+            elif name == "status":  # Status.update always refreshes
+                cur_status = eff[1]
+                status.update(eff[1])
+                if started:
                     shown = frame()
-        elif name == "stdout":
-            if started and cfg.get("redirect", True) and sys.stdout is not orig_out:
-                sys.stdout.write(op[1] + "\n")
-                committed += ref.print(Text(op[1]), markup=False, emoji=False, highlight=False)
-                prints_live += 1
-                if kind != "Progress":
+            elif name == "refresh":
+                if kind == "Live":
+                    live.refresh()
+                elif kind == "Status":
+                    status._live.refresh()
+                else:
+                    progress.refresh()
+                if started:
                     shown = frame()
+            elif name == "add":
+                tid = progress.add_task(eff[1], total=eff[2], visible=bool(eff[3]), start=bool(eff[4]))
+                task_ids.append(tid)
+                if started:
+                    shown = frame()
+            elif name == "advance":
+                if not task_ids:
+                    skip = True
+                else:
+                    progress.advance(task_ids[eff[1] % len(task_ids)], eff[2])
+            elif name == "visible":
+                if not task_ids:
+                    skip = True
+                else:
+                    progress.update(task_ids[eff[1] % len(task_ids)], visible=bool(eff[2]), refresh=bool(eff[3]))
+                    if eff[3] and started:
+                        shown = frame()
+            elif name == "remove":
+                if not task_ids:
+                    skip = True
+                else:
+                    progress.remove_task(task_ids.pop(eff[1] % len(task_ids)))
+            elif name == "start":
+                (live or progress or status).start()
+                if not started:
+                    started = True
+                    sessions += 1
+                    shown = frame() if kind == "Progress" else None
+            elif name == "stop":
+                (live or progress or status).stop()
+                if started:
+                    stopping = True
+                    started = False
+                    shown = frame(final=True)
             else:
-                continue
-        elif name == "update":  # Live
-            cur_spec = op[1]
-            live.update(_build(op[1]), refresh=bool(op[2]))
-            if op[2] and started:
-                shown = frame()
-        elif name == "status":  # Status.update always refreshes
-            cur_status = op[1]
-            status.update(op[1])
-            if started:
-                shown = frame()
-        elif name == "refresh":
-            if kind == "Live":
-                live.refresh()
-            elif kind == "Status":
-                status._live.refresh()
-            else:
-                progress.refresh()
-            if started:
-                shown = frame()
-        elif name == "add":
-            tid = progress.add_task(op[1], total=op[2], visible=bool(op[3]), start=bool(op[4]))
-            task_ids.append(tid)
-            if started:
-                shown = frame()
-        elif name == "advance":
-            if not task_ids:
-                continue
-            progress.advance(task_ids[op[1] % len(task_ids)], op[2])
-        elif name == "visible":
-            if not task_ids:
-                continue
-            progress.update(task_ids[op[1] % len(task_ids)], visible=bool(op[2]), refresh=bool(op[3]))
-            if op[3] and started:
-                shown = frame()
-        elif name == "remove":
-            if not task_ids:
-                continue
-            progress.remove_task(task_ids.pop(op[1] % len(task_ids)))
-        elif name == "start":
-            (live or progress or status).start()
-            if not started:
-                started = True
-                sessions += 1
-                shown = frame() if kind == "Progress" else None
-        elif name == "stop":
-            (live or progress or status).stop()
-            if started:
-                stopping = True
-                started = False
-                shown = frame(final=True)
-        else:
-            raise ValueError(op)
+                raise ValueError(op)
+        except (BoomError, PrintFault) as error:
+            fault = error
+        finally:
+            arm[0] = False
+        if skip:
+            continue
+        if arm[1] > raised_before:
+            expect_raise = True
+        if expect_raise and fault is None:
+            fail(
+                "c10.fault_propagates",
+                "op #%d %s: a renderable raised while it was rendered but the call returned normally"
+                % (idx, json.dumps(op)),
+                "exception propagates out of the call",
+                "no exception",
+                idx,
+            )
+        if fault is not None:
+            if eff is not op and name == "print":
+                partial = ref.print(eff[1], **(eff[2] if len(eff) > 2 else {}))
+            elif eff is not op and name == "out":
+                partial = ref.out(eff[1])
+            if was_started:
+                faults_live += 1
         n_exec += 1
         if shown is not None:
             heights.add(len(_strip_tail(shown)))
@@ -385,7 +524,31 @@ def _run_history(cfg: dict, ops: List[list], orig_out, orig_err) -> dict:
         pos = len(value)
         term.set_floor(floor_before)
         term.feed(delta)
-        ctx = "%s%s" % ("stop" if stopping else "op", suffix())
+        # a print / log whose wrap and crop options are not the ones a refresh of the display uses: reported
+        # under its own clause names (same checks, same strictness)
+        uncropped = was_started and (
+            name == "out"
+            or (name == "print" and len(eff) > 2 and bool(eff[2]))
+            or (bool(cfg.get("soft_wrap")) and name in ("print", "log", "stdout"))
+        )
+        ctx = "stop" if stopping else ("fault" if fault is not None else ("uncropped_print" if uncropped else "op"))
+        ctx_counts[ctx] = ctx_counts.get(ctx, 0) + 1
+        ctx += suffix()
+        if fault is not None:
+            # tolerance (3): take over whichever admissible outcome the screen shows; none fits: compared
+            # against "nothing was printed, the frame shown before is still there" below
+            frames = [shown]
+            if started and kind != "Progress" and op[0] == "badprint":
+                frames.append(frame())
+            seen_now = term.content()
+            chosen = None
+            for j in range(len(partial) + 1):
+                for fr in frames:
+                    if chosen is None and seen_now == _strip_tail(committed + partial[:j] + (fr or [])):
+                        chosen = (partial[:j], fr)
+            if chosen is not None:
+                committed = committed + chosen[0]
+                shown = chosen[1]
 
         if stopping:
             if transient:
@@ -500,6 +663,10 @@ def _run_history(cfg: dict, ops: List[list], orig_out, orig_err) -> dict:
             "ops": n_exec,
             "sessions": sessions,
             "prints_live": prints_live,
+            "uncropped_live": uncropped_live,
+            "faults_live": faults_live,
+            "n_fault_ops": ctx_counts.get("fault", 0),
+            "n_uncropped_ops": ctx_counts.get("uncropped_print", 0),
             "heights": sorted(heights),
             "padding_rows": padding_rows,
             "nontrivial": nontrivial,
@@ -630,6 +797,74 @@ def gen_case(rng: random.Random, tall: bool = False) -> Tuple[dict, List[list]]:
                 ops.append(["refresh"])
     ops = ops[:MAX_OPS]
     return cfg, ops
+
+
+# --------------------------------------------------------------------------- uncropped prints / faults in histories
+_PRINT_PATHS = [{}, {"soft_wrap": True}, {"crop": False}]
+
+
+def gen_fault_history(rng: random.Random) -> Tuple[dict, List[list]]:
+    """A history of ``gen_case`` in which some prints take an uncropped path and into which failing prints
+    (``badprint``) and failing frame renders (``badframe``) are inserted; the body carries on after each."""
+    cfg, base = gen_case(rng, False)
+    kind = cfg["kind"]
+    cfg["soft_wrap"] = rng.random() < 0.2
+    if kind == "Live":
+        cfg["armable"] = rng.random() < 0.7
+    elif kind == "Progress" and rng.random() < 0.5:
+        cfg["columns"] = "armed"
+    armable = bool(cfg.get("armable")) or cfg.get("columns") == "armed"
+    ops: List[list] = []
+    n_fault = 0
+    for op in base:
+        if op[0] == "print" and rng.random() < 0.6:
+            q = rng.random()
+            op = ["out", op[1]] if q < 0.25 else ["print", op[1], dict(rng.choice(_PRINT_PATHS[1:]))]
+        ops.append(op)
+        if rng.random() < 0.22:
+            n_fault += 1
+            if armable and rng.random() < 0.4:
+                inner = rng.choice([
+                    ["print", "q%d" % n_fault, dict(rng.choice(_PRINT_PATHS))],
+                    ["print", "q%d" % n_fault, dict(rng.choice(_PRINT_PATHS[1:]))],
+                    ["out", "q%d" % n_fault],
+                ] + ([["refresh"]] if kind == "Live" else []))
+                ops.append(["badframe", inner])
+            else:
+                ops.append(["badprint", n_fault, rng.choice([0, 1, 1, 2, 4]), dict(rng.choice(_PRINT_PATHS)), rng.randint(0, 1)])
+    return cfg, ops[:MAX_OPS]
+
+
+def directed_fault_histories() -> List[Tuple[dict, List[list]]]:
+    """Exhaustive small family: a display showing a frame of h rows, two committed prints, then one failing
+    call (a printed renderable raising after r rows on each print path, or the frame raising under each print
+    path / a refresh), then either another print or nothing, then stop (= the exception leaving the with block
+    right away when nothing follows)."""
+    out = []
+    for kind in ("Live", "Progress", "Status"):
+        for h in (1, 2, 3, 5):
+            for follow in ([["print", "after"]], []):
+                calls = [["badprint", 1, r, dict(o), r % 2] for o in _PRINT_PATHS for r in (0, 1, 2)]
+                if kind != "Status":
+                    calls += [["badframe", ["print", "q", dict(o)]] for o in _PRINT_PATHS] + [["badframe", ["out", "q"]]]
+                if kind == "Live":
+                    calls.append(["badframe", ["refresh"]])
+                for call in calls:
+                    cfg: Dict[str, Any] = {"kind": kind, "width": 40, "height": 25, "color": None,
+                                           "transient": bool(h == 2 and not follow), "log_time": False,
+                                           "redirect": True, "restart": False}
+                    pre: List[list] = []
+                    if kind == "Live":
+                        cfg.update(overflow="ellipsis", initial=["lines", 0, h], armable=True)
+                    elif kind == "Progress":
+                        cfg["columns"] = "armed"
+                        pre = [["add", "T%d" % i, 10, 1, 1] for i in range(h)]
+                    ops = pre + [["start"]]
+                    if kind == "Status":
+                        ops.append(["status", "\n".join("S1.%d" % i for i in range(h))])
+                    ops += [["print", "one"], ["print", "two"], call] + follow
+                    out.append((cfg, ops))
+    return out
 
 
 # --------------------------------------------------------------------------- fault injection
@@ -900,12 +1135,19 @@ def minimise(cfg: dict, ops: List[list], clause: str, budget: float = 4.0) -> Tu
 
 # --------------------------------------------------------------------------- driver
 def _case_batch(args) -> List[dict]:
-    seed, lo, hi, tall_every = args
+    seed, lo, hi, tall_every = args[:4]
+    family = args[4] if len(args) > 4 else "history"
+    directed = directed_fault_histories() if family == "directed" else []
     out = []
     for i in range(lo, hi):
         rng = random.Random("c10:%d:%d" % (seed, i))
-        tall = tall_every > 0 and i % tall_every == 0
-        cfg, ops = gen_case(rng, tall)
+        tall = family == "history" and tall_every > 0 and i % tall_every == 0
+        if family == "directed":
+            cfg, ops = directed[i - _DIRECTED_BASE]
+        elif family == "fault":
+            cfg, ops = gen_fault_history(rng)
+        else:
+            cfg, ops = gen_case(rng, tall)
         try:
             res = run_history(cfg, ops)
         except Exception as error:  # an exception out of rich during a plain history
@@ -921,10 +1163,16 @@ def _case_batch(args) -> List[dict]:
                         "op_index": len(ops) - 1,
                     }
                 ],
-                "stats": {"ops": 0, "sessions": 0, "prints_live": 0, "heights": [], "padding_rows": 0, "nontrivial": False},
+                "stats": {"ops": 0, "sessions": 0, "prints_live": 0, "uncropped_live": 0, "faults_live": 0,
+                          "n_fault_ops": 0, "n_uncropped_ops": 0, "heights": [],
+                          "padding_rows": 0, "nontrivial": False},
             }
-        out.append({"i": i, "cfg": cfg, "ops": ops, "tall": tall, "res": res})
+        out.append({"i": i, "cfg": cfg, "ops": ops, "tall": tall, "family": family, "res": res})
     return out
+
+
+_FAULT_BASE = 1000000  # case indices of the fault-history family (own random streams, the others are unchanged)
+_DIRECTED_BASE = 2000000
 
 
 def run(tier: str, seed: int) -> dict:
@@ -954,6 +1202,13 @@ def run(tier: str, seed: int) -> dict:
     # ---- histories
     batches = []
     step = 20 if quick else 100
+    # the small families first: the time budget may only ever cut the tail of the big random one
+    n_directed = len(directed_fault_histories())
+    for lo in range(0, n_directed, 100):
+        batches.append((seed, _DIRECTED_BASE + lo, _DIRECTED_BASE + min(n_directed, lo + 100), 0, "directed"))
+    n_fault_hist = 60 if quick else 3000
+    for lo in range(0, n_fault_hist, step):
+        batches.append((seed, _FAULT_BASE + lo, _FAULT_BASE + min(n_fault_hist, lo + step), 0, "fault"))
     for lo in range(0, n_cases, step):
         batches.append((seed, lo, min(n_cases, lo + step), tall_every))
     results: List[dict] = []
@@ -986,16 +1241,25 @@ def run(tier: str, seed: int) -> dict:
         key = hashlib.sha1(json.dumps([r["cfg"], r["ops"]], sort_keys=True).encode()).hexdigest()
         if st["nontrivial"]:
             distinct.add(key)
-        kk = r["cfg"]["kind"] + ("/tall" if r["tall"] else "")
+        kk = r["cfg"]["kind"] + ("/tall" if r["tall"] else "") + ("" if r["family"] == "history" else "/" + r["family"])
         kinds[kk] = kinds.get(kk, 0) + 1
         n = st["ops"]
         restart = st["sessions"] > 1
-        for c in ("c10.screen_after_op", "c10.cursor_position_op", "c10.cursor_above_live", "c10.cursor_in_viewport"):
+        n_fault_ops, n_unc = st.get("n_fault_ops", 0), st.get("n_uncropped_ops", 0)
+        for c in ("c10.screen_after_op", "c10.cursor_position_op"):
+            clauses[c] = clauses.get(c, 0) + n - n_fault_ops - n_unc
+        for c in ("c10.cursor_above_live", "c10.cursor_in_viewport"):
             clauses[c] = clauses.get(c, 0) + n
         if st["sessions"]:
             for c in ("c10.screen_after_stop", "c10.cursor_visible_after_stop", "c10.redirect_restored_after_stop",
                       "c10.hook_popped_after_stop", "c10.cursor_position_stop"):
                 clauses[c] = clauses.get(c, 0) + st["sessions"]
+        if n_fault_ops:
+            for c in ("c10.fault_propagates", "c10.screen_after_fault", "c10.cursor_position_fault"):
+                clauses[c] = clauses.get(c, 0) + n_fault_ops
+        if n_unc:
+            for c in ("c10.screen_after_uncropped_print", "c10.cursor_position_uncropped_print"):
+                clauses[c] = clauses.get(c, 0) + n_unc
         if restart:
             for c in ("c10.screen_after_op:restart", "c10.screen_after_stop:restart", "c10.cursor_above_live:restart",
                       "c10.cursor_in_viewport:restart"):
@@ -1061,16 +1325,23 @@ def run(tier: str, seed: int) -> dict:
         "rule": "histories: seeded random (seed, index) -> (configuration, <=40 ops); distinct by sha1 of (cfg, ops); "
                 "non-trivial = display started, >=1 print/log while it is running and >=2 different frame heights "
                 "shown. fault runs: every (case, k, persist) / (case, block position); non-trivial = an exception "
-                "actually escaped. Deterministic per seed (no threads: auto_refresh=False). Tolerance: trailing blank "
+                "actually escaped. fault histories (case index >= 1000000: seeded random, >= 2000000: the directed "
+                "enumeration): same runner, with uncropped prints and failing prints / failing frame renders that "
+                "the body catches. Deterministic per seed (no threads: auto_refresh=False). Tolerance: trailing blank "
                 "rows are not compared; blank padding rows below a shrunk Progress frame tolerated "
                 "(padding_rows=%d in this run). Mix: %s" % (padding_rows, json.dumps(kinds, sort_keys=True)),
         "bound": "%d histories (<=%d ops) over {print, log, stdout write, update(+/-refresh), refresh, add/advance/"
                  "hide/show/remove task, start, stop} x {Live, Progress(text|spinner|bar columns), Status} x "
                  "transient x vertical_overflow x widths %s, height 25; every 4th history: Live with console "
                  "height in {4,6,9}, frames 0..2h+3 lines, overflow crop/ellipsis; frames: text lines, Panel, "
-                 "Table, wrapped text, styled text, empty; %d fault-injection runs (raise at every render-call "
+                 "Table, wrapped text, styled text, empty; of these %d fault histories (prints via soft_wrap / "
+                 "crop=False / out / soft_wrap console; printed renderable raising after 0..4 rows, live "
+                 "renderable or RenderableColumn raising under print/out/refresh) and %d directed ones ({Live, "
+                 "Progress, Status} x frame height {1,2,3,5} x print path x rows before the raise {0,1,2} or "
+                 "failing frame x {print afterwards, stop at once}); %d fault-injection runs (raise at every render-call "
                  "index k, once or persistently, renderable or column; exception at every block position)"
-                 % (len(results), MAX_OPS, _WIDTHS, f_evals),
+                 % (len(results), MAX_OPS, _WIDTHS, sum(1 for r in results if r["family"] == "fault"),
+                    sum(1 for r in results if r["family"] == "directed"), f_evals),
         "samples": samples[:10],
         "clauses": clauses,
         "failures": failures,
